@@ -52,7 +52,8 @@ impl<'tera> VirtualMachine<'tera> {
             tera,
             template,
             autoescape_override: Some(autoescape),
-            component_recursion_depth: 0,
+            // The component rendered through the API is itself one level of nesting
+            component_recursion_depth: 1,
         }
     }
 
